@@ -18,6 +18,7 @@
 package main
 
 import (
+	"math"
 	"bufio"
 	"bytes"
 	"encoding/json"
@@ -648,7 +649,13 @@ func probeAttrs(attrs []string) {
 			{"bool", "p", a, ""}, {"bool", "input", a, `"`},
 			{"http", "a", " HTTP://h.example/P?Q ", `"`}, {"data", "a", "data:text/plain;charset=us-ascii,abc", `"`},
 		}
+		// URL-valued attributes: blanks at the ends may be trimmed, runs of blanks / tabs / newlines inside must survive
+		// (as far as the URL parser keeps them): a collapsed run is a different URL
+		ps = append(ps, pr{"urlws", "img", "  files/annual  report.pdf  ", `"`}, pr{"urlws", "a", "files/a\t\tb   c.pdf", `"`},
+			pr{"urlws", "a", " \n files/a\n\n  b \t c.pdf\n", `'`})
 		if thorough {
+			ps = append(ps, pr{"urlws", "p", "files/annual  report.pdf", `'`}, pr{"urlws", "form", "\tq?x=1  2\t\t3 ", `"`},
+				pr{"urlws", "video", "a  b", `"`}, pr{"urlws", "x-unknown", "a  b\n\nc", `"`})
 			ps = append(ps, pr{"bool", "x-unknown", a, `'`}, pr{"bool", "video", "true", `"`},
 				pr{"http", "img", "HTTPS://h.example/P?Q", `"`}, pr{"http", "p", " HTTP://h.example/P?Q", `'`},
 				pr{"data", "img", "data:text/plain;charset=us-ascii,abc", ``})
@@ -661,7 +668,11 @@ func probeAttrs(attrs []string) {
 			if !inpresent {
 				lib.Fatal("attribute probe %q: the independent tokenizer does not see the attribute", in)
 			}
-			emit(fmt.Sprintf("attrprobe|%s|%s|%s|%s", p.probe, p.elem, p.val, a), obj{"kind": "attrprobe", "attr": a, "elem": p.elem, "probe": p.probe,
+			label := p.val
+			if p.probe == "urlws" {
+				label = strconv.Quote(p.val) // the cid must stay on one line
+			}
+			emit(fmt.Sprintf("attrprobe|%s|%s|%s|%s", p.probe, p.elem, label, a), obj{"kind": "attrprobe", "attr": a, "elem": p.elem, "probe": p.probe,
 				"in": in, "out": string(out), "err": errs, "inval": lib.Bytes(inval), "present": present, "outval": lib.Bytes(outval)})
 		}
 	}
@@ -744,6 +755,10 @@ func svgAttr(doc []byte, elem, attr string) ([]byte, bool, bool) {
 	}
 }
 
+// colourWant: for functional spellings (rgb(), rgba(), hsl()) the colour the driver rendered, <<r,g,b,a>>; hex and
+// keyword spellings are decoded by the TLA+ side itself (empty).
+var colourWant = map[string][]int{}
+
 func probeColours(values []string) {
 	for _, v := range values {
 		type cx struct{ ctx, in, mime string }
@@ -770,9 +785,82 @@ func probeColours(values []string) {
 				ov = declValue(out, c.ctx == "cssinline")
 			}
 			emit("colourprobe|"+c.ctx+"|"+v, obj{"kind": "colourprobe", "ctx": c.ctx, "in": c.in, "out": string(out), "err": errs,
-				"inb": lib.Bytes(v), "inlow": strings.ToLower(v), "outb": lib.Bytes(ov), "outlow": strings.ToLower(string(ov))})
+				"inb": lib.Bytes(v), "inlow": strings.ToLower(v), "outb": lib.Bytes(ov), "outlow": strings.ToLower(string(ov)),
+				"inrgba": wantOf(v)})
 		}
 	}
+}
+
+func wantOf(v string) []int {
+	if w, ok := colourWant[v]; ok {
+		return w
+	}
+	return []int{}
+}
+
+// hslOf: h (integer degrees), s, l (percent with one decimal) of an sRGB colour, only if that spelling converts back
+// to exactly the same bytes by the CSS Color 4 algorithm (section 7.1, hslToRgb)
+func hslOf(r, g, b int) (string, bool) {
+	rf, gf, bf := float64(r)/255, float64(g)/255, float64(b)/255
+	mx, mn := math.Max(rf, math.Max(gf, bf)), math.Min(rf, math.Min(gf, bf))
+	l := (mx + mn) / 2
+	h, sat := 0.0, 0.0
+	if d := mx - mn; d > 0 {
+		sat = d / (1 - math.Abs(2*l-1))
+		switch mx {
+		case rf:
+			h = math.Mod((gf-bf)/d+6, 6)
+		case gf:
+			h = (bf-rf)/d + 2
+		default:
+			h = (rf-gf)/d + 4
+		}
+		h *= 60
+	}
+	hi, s1, l1 := math.Round(h), math.Round(sat*1000)/10, math.Round(l*1000)/10
+	f := func(n float64) float64 {
+		k := math.Mod(n+hi/30, 12)
+		a := s1 / 100 * math.Min(l1/100, 1-l1/100)
+		return l1/100 - a*math.Max(-1, math.Min(k-3, math.Min(9-k, 1)))
+	}
+	back := func(x float64) int { return int(math.Round(x * 255)) }
+	// exact only: the three channels must come back well inside the rounding interval
+	for i, n := range []float64{0, 8, 4} {
+		x := f(n) * 255
+		want := float64([]int{r, g, b}[i])
+		if math.Abs(x-want) > 0.2 || back(f(n)) != []int{r, g, b}[i] {
+			return "", false
+		}
+	}
+	return fmt.Sprintf("hsl(%d,%s%%,%s%%)", int(hi), strconv.FormatFloat(s1, 'f', -1, 64), strconv.FormatFloat(l1, 'f', -1, 64)), true
+}
+
+// colourNotations: every notation of one table colour: #rgb(a), #rrggbb(aa) with the alphas ff f0 fe 0f 80 00,
+// rgb()/rgba()/hsl() spellings of the opaque colour
+func colourNotations(r, g, b int) []string {
+	out := []string{}
+	h6 := fmt.Sprintf("#%02x%02x%02x", r, g, b)
+	for _, a := range []string{"ff", "f0", "fe", "0f", "80", "00", "FF", "F0"} {
+		out = append(out, h6+a)
+	}
+	out = append(out, h6, strings.ToUpper(h6))
+	if r%17 == 0 && g%17 == 0 && b%17 == 0 {
+		h3 := fmt.Sprintf("#%x%x%x", r/17, g/17, b/17)
+		out = append(out, h3)
+		for _, a := range []string{"f", "e", "8", "0"} {
+			out = append(out, h3+a)
+		}
+	}
+	fn := []string{fmt.Sprintf("rgb(%d,%d,%d)", r, g, b), fmt.Sprintf("rgb(%d %d %d)", r, g, b), fmt.Sprintf("rgba(%d,%d,%d,1)", r, g, b),
+		fmt.Sprintf("rgba(%d, %d, %d, 100%%)", r, g, b), fmt.Sprintf("RGB(%d,%d,%d)", r, g, b)}
+	if hs, ok := hslOf(r, g, b); ok {
+		fn = append(fn, hs, strings.Replace(hs, "hsl(", "hsla(", 1)[:len(hs)]+",1)")
+	}
+	for _, f := range fn {
+		colourWant[f] = []int{r, g, b, 255}
+		out = append(out, f)
+	}
+	return out
 }
 
 func probeSvgAttrs(attrs []string) {
@@ -1019,6 +1107,9 @@ func main() {
 		if c[0]%17 == 0 && c[1]%17 == 0 && c[2]%17 == 0 {
 			hexes = append(hexes, fmt.Sprintf("#%x%x%x", c[0]/17, c[1]/17, c[2]/17))
 		}
+		// every hex notation with and without alpha, and the functional spellings: the code that USES the tables
+		// (alpha shortcut, hex <-> keyword) must keep colour and alpha
+		hexes = append(hexes, colourNotations(c[0], c[1], c[2])...)
 	}
 	for _, h := range tHexes {
 		hexes = append(hexes, strings.ToUpper(h))
